@@ -16,7 +16,7 @@ import (
 
 func main() {
 	c := common.New("C04", "fault_enumeration")
-	cfgs := []driver.ProbeConfig{driver.CfgDefault, driver.CfgWorker1, driver.CfgWorker2, driver.CfgFollowSchema}
+	cfgs := []driver.ProbeConfig{driver.CfgDefault, driver.CfgWorker1, driver.CfgWorker2, driver.CfgFollowSchema, driver.CfgFieldDir}
 	budget := 100 * time.Second
 	if c.Tier == "thorough" {
 		budget = 14 * time.Minute
